@@ -5,6 +5,15 @@ from pathlib import Path
 V = Path(__file__).resolve().parent.parent
 
 CLAIMED = {
+ "C12": ("Coq theorems (Types/PhantomProofs.v): constructor call = identity on members / TypeError otherwise; integer types nest by range for ALL integers; membership of a fixed-width type <-> the writer succeeds, and then the reader returns the value; f64, both duration types (read back as the value rounded half-even to whole ms) and the timestamp type are accepted by their writers and read back; instance theorem: translated interval bounds = documented bounds and subclass chains nest; correspondence on isinstance / constructor / writer / read-back over boundary values of every Python type",
+         "machine-checked proof (Coq) + instance theorem + correspondence", "4 C12"),
+ "C13": ("instance theorem c13_shipped by vm_compute over all 1629 classes / 5094 fields: annotation <-> kafka type table, nullability only on nullable-capable types, tuple[T, ...] arrays, defaults inhabit the declared type (entity defaults by class identity and field-wise), unique in-range tags on flexible classes only, reader+writer plans derivable by the Gallina rendering of kio's introspection AND well-formed (wf_env, the hypothesis of the codec theorems); that rendering is compared with kio's functions on every field plus 300 synthetic annotation/metadata combinations",
+         "Coq instance theorem by vm_compute over translator output + correspondence of the introspection model", "4 C13"),
+ "C15": ("instance theorem c15_shipped (every schema class and the four record classes: frozen, slots = fields, eq, no order, no __dict__, deeply immutable field types) + theorems over the abstract machine for frozen instances (equality is field-wise and an equivalence, any hash of class+fields is consistent, no operation changes an instance, copies are equal) + behavioural correspondence on generated instances (setattr/delattr, ==/hash vs structural equality incl. single-field perturbations down to 1 us, copy/deepcopy/replace/pickle). Partial: CPython's dataclass machinery is modelled and sampled, not derived",
+         "Coq instance theorem + machine-checked model theorems + behavioural correspondence (partial)", "4 C15"),
+ "C19": ("Coq theorems c19_cache_invariant / c19_use_is_history_independent: for every schedule (any interleaving of any number of threads' lookups, compilations, stores, uses with faults) the cache holds only compile(key) and each use returns what a fresh call returns; correspondence: fresh-interpreter histories, a stream fault at every write/read call followed by reuse, 8 real threads on a cold cache, AST scan for shared mutable state. Partial: real preemption and functools.cache's C code are sampled, not modelled",
+         "machine-checked proof (Coq) over all interleavings of the cache model + history/fault/thread correspondence (partial)", "4 C19"),
+
  "C02": ("Coq theorem c02_encoder_is_wire_format: for every well-formed environment, class and typed value the model of kio's encoder equals (also in failure) the Kafka wire format written independently in closed form (Codec/WireSpec.v: big-endian digits, base-128 minimal varints, ascending merge-sorted tags); three-way correspondence per run: kio's bytes = independent Python reference encoder = Coq spec_enc",
          "machine-checked proof (Coq) of encoder = independent wire specification + three-way correspondence", "4 C02"),
  "C03": ("Coq theorem c03_decoder_accepts_conforming: for every decorated value a conforming peer may send (explicitly sent defaults incl. explicit nulls, unknown tagged fields with arbitrary payloads at every nesting level, any trailing bytes) the decoder returns exactly the wire values with absent tagged fields defaulted; correspondence on reference-encoded decorated messages of every class",
@@ -36,11 +45,7 @@ CLAIMED = {
 
 NOT_YET = {
  "C04": "check under construction in this session (pinned schema + generator run)",
- "C12": "check under construction in this session",
- "C13": "check under construction in this session (instance theorem exists, correspondence pending)",
- "C15": "check under construction in this session",
  "C16": "check under construction in this session",
- "C19": "check under construction in this session",
 }
 
 NOTE = ("Trusted base: Coq 8.16.1 kernel + VM (vm_compute; no native_compute); harness/translate.py; the correspondence "
